@@ -15,7 +15,25 @@ pub fn format_parse_error(input: &str, err: nom::Err<NomError<&str>>) -> String 
     match err {
         nom::Err::Error(e) | nom::Err::Failure(e) => {
             let error_pos = e.input;
-            let offset = input.len() - error_pos.len();
+            // The failing slice normally lies inside `input`; locate it by address, so that a
+            // sub-slice that is not a suffix still maps to its real position. Keep the offset
+            // on a character boundary: it is used to slice `input` and to place the annotation.
+            let mut offset = {
+                let base = input.as_ptr() as usize;
+                let position = error_pos.as_ptr() as usize;
+                if position >= base && position <= base + input.len() {
+                    position - base
+                } else {
+                    input.len().saturating_sub(error_pos.len())
+                }
+            };
+            while !input.is_char_boundary(offset) {
+                offset -= 1;
+            }
+            let span_end = input[offset..]
+                .chars()
+                .next()
+                .map_or(offset, |character| offset + character.len_utf8());
             
             // Calculate line and column numbers
             let mut line_no = 1;
@@ -94,7 +112,7 @@ pub fn format_parse_error(input: &str, err: nom::Err<NomError<&str>>) -> String 
                             .fold(false)
                             .annotation(
                                 AnnotationKind::Primary
-                                    .span(offset..offset.saturating_add(1).min(input.len()))
+                                    .span(offset..span_end)
                                     .label(&final_label)
                             )
                     )
